@@ -53,6 +53,8 @@ StringDictionaryHTFC::StringDictionaryHTFC(IteratorDictString *it,
     this->bucketsize = 2;
   } else
     this->bucketsize = bucketsize;
+  // the parameter shadows the member: use the clamped value from here on
+  bucketsize = this->bucketsize;
 
   // 1) Bulding the Front-Coding representation
   StringDictionaryPFC *dict = new StringDictionaryPFC(it, this->bucketsize);
